@@ -164,7 +164,7 @@ def judge(chk, c, obs, dropped, d2):
 
 def main(tier, seed, scale=1.0):
     chk = Check(PROP, tier, seed)
-    n = int((320 if tier == "quick" else 25000) * scale)
+    n = int((2400 if tier == "quick" else 40000) * scale)
     chk.rule = ("random generic definitions whose parameters occur in delegated, ignored, method-handled, "
                 "expression-defaulted and PhantomData positions and inside Option<_> / [_; 2]; every educed trait and "
                 "companion impl probed for every assignment of {Yes, No<Trait>} to the type parameters; partner traits "
